@@ -25,6 +25,7 @@ mod c17;
 mod c18;
 mod c19;
 mod c20;
+mod c20cli;
 
 fn main() {
     // no TLS is ever used by the harness; loading the system trust store costs 60 ms per reqwest client
